@@ -77,6 +77,15 @@ func sendFeatures(fn *ssa.Function) []sendFeat {
 
 // mapName names a map operand by the parameter or local variable it is.
 func mapName(v ssa.Value) string {
+	// by type first (robust against renames): the map of *Page values is the reachable map, the bool map the freed map
+	if t := v.Type().String(); strings.HasPrefix(t, "map[") {
+		if strings.Contains(t, "common.Page") {
+			return "reachable"
+		}
+		if strings.HasSuffix(t, "]bool") {
+			return "freed"
+		}
+	}
 	v = resolveCell(v)
 	switch x := v.(type) {
 	case *ssa.Parameter:
